@@ -2,7 +2,7 @@
 from dsim import seams
 from dsim.core import HarnessError
 from props.common import gen_strategy, quiet_logging, Violations
-from worlds.reqpath import ReqPathRun, base_plan, RETRY_NEXT_HOST
+from worlds.reqpath import make_legacy, ReqPathRun, base_plan, RETRY_NEXT_HOST
 from worlds.full import ReqObs
 
 ID = 'C20'
@@ -57,12 +57,27 @@ def gen_plan(rng, tier):
         p['requests'].append({'plan': order, 'idempotent': True, 'decisions': [[RETRY_NEXT_HOST, None]] * 2})
     p['knobs'] = {'orphaned_threshold': 2, 'max_in_flight': 64}
     p.update(strategy=gen_strategy(rng), line_p=rng.choice([0, 0, 0.01]), points=rng.choice([0, 2]), time_jump_p=0)
+    if rng.random() < 0.2:
+        # protocol 2: HostConnectionPool, several connections per pool, each of which has to switch
+        make_legacy(p, rng)
+        p['pool_v2']['core'] = rng.choice([1, 2, 3])
+        p['pool_v2']['max'] = p['pool_v2']['core'] + rng.choice([0, 1])
+        p['knobs'] = {'max_in_flight': 64}
+        p['burst_after'] = True
+        for r in p['requests']:
+            r['scripts'] = [{'kind': 'ok', 'delay': 0.05}]
+        for sw in p['switches']:
+            sw['orphan_node'] = None        # orphan-threshold replacement exists for HostConnection only
+            if rng.random() < 0.6:
+                sw['load'] = {'node': rng.randrange(n), 'n': p['pool_v2']['max_req'] * p['pool_v2']['core'] + rng.choice([1, 3]),
+                              'delay': rng.choice([0.1, 0.3]), 'lead': rng.choice([0.0, 0.001, 0.004, 0.01])}
     return p
 
 
 def line_funcs(w):
     return [w.ccl.Session._set_keyspace_for_all_pools, w.cpool.HostConnection._set_keyspace_for_all_conns,
-            w.cpool.HostConnection._replace, w.cconn.Connection.set_keyspace_async]
+            w.cpool.HostConnection._replace, w.cconn.Connection.set_keyspace_async,
+            w.cpool.HostConnectionPool._set_keyspace_for_all_conns, w.cpool.HostConnectionPool.return_connection]
 
 
 def run_plan(plan, seed, choices=None):
@@ -117,6 +132,29 @@ def run_plan(plan, seed, choices=None):
             if sw['rst_before'] is not None:
                 sim.at(0.0, (lambda k=sw['rst_before']: fc.rst_conns(k, 'pool')), 'rst pool conn n%d' % sw['rst_before'])
                 w.sleep(sw['rst_lead'])
+            if sw.get('load'):
+                # protocol 1/2 pools grow under load: requests pile up on one host right before the switch, so that the pool opens
+                # another connection while the USE statements are in flight
+                ld = sw['load']
+                sim.probe('pool_growth_during_switch_attempted')
+
+                def load(ld=ld, si=si):
+                    futs = []
+                    for j in range(ld['n']):
+                        rid_l = 700 + si * 40 + j
+                        fc.scripts[rid_l] = [{'kind': 'ok', 'delay': ld['delay']}]
+                        try:
+                            futs.append(session.execute_async("SELECT * FROM ks1.t /*rid=%d*/" % rid_l, timeout=3.0,
+                                                              host=lbp.hosts.get(fc.nodes[ld['node']].addr)))
+                        except Exception:
+                            pass
+                    for f in futs:
+                        try:
+                            f.result()
+                        except Exception:
+                            pass
+                w.spawn(load, 'load')
+                w.sleep(ld['lead'])
             rec = {'ks': sw['ks'], 'start': sim.nlog, 't0': sim.vnow(), 'outcome': None, 'pools': {}, 'conns': set()}
             for addr, pool in w.pools().items():
                 c = getattr(pool, '_connection', None)
@@ -155,6 +193,7 @@ def run_plan(plan, seed, choices=None):
                 retried[si] = rec2
             w.net.slow.clear()
             w.sleep(0.05)
+            burst = []
             for _ in range(per):
                 if rid >= len(plan['requests']):
                     break
@@ -162,10 +201,18 @@ def run_plan(plan, seed, choices=None):
                 o.after_switch = si
                 try:
                     o.start(session, run.statement(rid, plan['requests'][rid]), timeout=3.0)
-                    o.wait()
+                    if plan.get('burst_after'):
+                        burst.append(o)     # several at once: a pool with more than one connection spreads them
+                    else:
+                        o.wait()
                 except Exception as e:
                     o.result = ('err', type(e).__name__, str(e)[:160])
                 rid += 1
+            for o in burst:
+                try:
+                    o.wait()
+                except Exception as e:
+                    o.result = ('err', type(e).__name__, str(e)[:160])
     run.user = user
     status = run.run(settle=0.5)
     V = Violations()
@@ -179,6 +226,10 @@ def run_plan(plan, seed, choices=None):
             nontrivial = True
         if 'no-connection' in states:
             sim.probe('pool_without_connection')
+        if plan.get('version', 4) < 3 and rec.get('end') is not None:
+            grown = [nc for nd in fc.nodes for nc in nd.conns if not nc.events and rec['start'] < nc.accepted_seq < rec['end']]
+            if grown:
+                sim.probe('pool_grew_during_switch')
         if rec['outcome'] is None:
             why = 'pool-without-connection' if 'no-connection' in states else ('pool-shutdown' if 'shutdown' in states else 'other')
             V.add('C20/completes', 'switch-never-completed:' + why,
@@ -223,4 +274,4 @@ def run_plan(plan, seed, choices=None):
     return {'violations': V.items, 'rules_checked': V.checked, 'nontrivial': nontrivial,
             'faults': dict(w.net.fault_counts), 'states': [w.abstract_state()],
             'summary': {'status': status, 'switches': [(r['ks'], r['outcome'] and r['outcome'][0], r['pools']) for r in switches]},
-            'stratum': 'remote' if plan.get('remote_nodes') else 'plain'}
+            'stratum': ('remote' if plan.get('remote_nodes') else 'plain') + ('-v2pool' if plan.get('version', 4) < 3 else '')}
